@@ -189,7 +189,7 @@ def _run(res, work):
     broken = []          # proof / translator problems: need a failing input before they count as found
     oracle_inputs = []   # concrete failing inputs from the property's own oracles
 
-    ok, tlog = common.regen_tables()
+    ok, tlog = common.regen_tables("C14")
     for line in tlog.splitlines():
         if "EXTRACTION FAILED" in line and re.match(r"(Features|FeatureSites|FeaturesObl):", line):
             broken.append(("translator", line))
